@@ -114,7 +114,7 @@ theorem visit_grows (g : Graph) : ∀ (fuel : Nat) (s : St) (m : Nat), Grows s (
         | none =>
           simp only
           -- the body of m runs now: m had no status at entry
-          have step : Grows s ({ status := s2.status, trace := s2.trace ++ [m], error := none, info := s2.info, stack := s2.stack, idx := s2.idx } : St) := by
+          have step : Grows s ({ status := s2.status, trace := s2.trace ++ [m], error := none, info := s2.info, stack := s2.stack, idx := s2.idx, path := s2.path.drop 1 } : St) := by
             refine ⟨fun x h => g12.status x h, ?_⟩
             intro x hx
             simp only [List.mem_append, List.mem_singleton] at hx
@@ -208,7 +208,7 @@ theorem visit_once (g : Graph) : ∀ (fuel : Nat) (s : St) (m : Nat), Once s →
               have := h.2 m h1'
               rw [hst] at this; exact absurd this (by simp)
             · rw [statusOf_enter] at h1; simp at h1
-          have o3 : Once ({ status := s2.status, trace := s2.trace ++ [m], error := none, info := s2.info, stack := s2.stack, idx := s2.idx } : St) := by
+          have o3 : Once ({ status := s2.status, trace := s2.trace ++ [m], error := none, info := s2.info, stack := s2.stack, idx := s2.idx, path := s2.path.drop 1 } : St) := by
             refine ⟨?_, ?_⟩
             · exact List.nodup_append.mpr ⟨o2.1, by simp, by intro a ha b hb; simp at hb; subst hb; exact fun e => hm (e ▸ ha)⟩
             · intro x hx
@@ -227,8 +227,8 @@ theorem once_init : Once St.init := ⟨List.nodup_nil, fun _ h => by simp [St.in
 
 theorem evaluate_once (g : Graph) (s : St) (r : Nat) (h : Once s) : Once (evaluate g s r) := by
   unfold evaluate
-  have hv := visit_once g (g.deps.length + 2) { s with error := none, stack := [], idx := 0 } r (h.congr rfl rfl)
-  generalize visit g (g.deps.length + 2) { s with error := none, stack := [], idx := 0 } r = s' at hv
+  have hv := visit_once g (g.deps.length + 2) { s with error := none, stack := [], idx := 0, path := [] } r (h.congr rfl rfl)
+  generalize visit g (g.deps.length + 2) { s with error := none, stack := [], idx := 0, path := [] } r = s' at hv
   simp only
   split
   · exact (once_markAll _ _ s' hv).congr rfl rfl
@@ -251,7 +251,7 @@ theorem reevaluate_runs_nothing (g : Graph) (s : St) (root : Nat) (st : Status) 
     (evaluate g s root).trace = s.trace ∧ (evaluate g s root).status = s.status ∧
     (evaluate g s root).error = (match st with | .failed e => some e | _ => none) := by
   unfold evaluate visit
-  have hs : statusOf { s with error := none, stack := [], idx := 0 } root = some st := h
+  have hs : statusOf { s with error := none, stack := [], idx := 0, path := [] } root = some st := h
   simp only [Option.isSome_none, Bool.false_eq_true, ↓reduceIte, hs]
   cases st <;> simp [markAll]
 
@@ -279,7 +279,7 @@ theorem walked_has_status (g : Graph) (fuel : Nat) (s : St) (m : Nat) :
         split
         · exact h2
         · split
-          · exact (grows_popThrough ({ status := s2.status, trace := s2.trace ++ [m], error := none, info := s2.info, stack := s2.stack, idx := s2.idx } : St) m).status m h2
+          · exact (grows_popThrough ({ status := s2.status, trace := s2.trace ++ [m], error := none, info := s2.info, stack := s2.stack, idx := s2.idx, path := s2.path.drop 1 } : St) m).status m h2
           · exact h2
 
 theorem noteCycle_error (a : St) (m d : Nat) : (noteCycle a m d).error = a.error := by
